@@ -490,8 +490,18 @@ func Len(a *Term) *Term {
 	if a.Op == "ite" {
 		return Ite(a.Args[0], Len(a.Args[1]), Len(a.Args[2]))
 	}
+	if a.Op == "uf" && a.Sort == SStr && lenAbstract[a.S] {
+		// the length of an encoded / compressed string is an integer of its own (ground
+		// axioms in solver.go relate it to the length of the argument): string solvers
+		// do not construct witnesses of many kilobytes for "len(url) > 8192". Weaker
+		// than the string's real length, hence sound for unsat; a model that relies on
+		// it is confirmed or discarded by the native replay.
+		return UFSort("len."+a.S, SInt, a.Args...)
+	}
 	return &Term{Op: "len", Sort: SInt, Args: []*Term{a}}
 }
+
+var lenAbstract = map[string]bool{"b64": true, "b64url": true, "b64raw": true, "b64rawurl": true, "qe": true, "qe1": true, "qe2": true, "deflate": true}
 
 func PrefixOf(p, s *Term) *Term {
 	if p.IsConst() && s.IsConst() {
